@@ -155,7 +155,9 @@ CHECKS = {
              "reference, to a fixpoint (every history over the alphabet); "
              "complete enumeration of the single-fault mutants the property "
              "names (13 missing attributes, 6 list-length faults, duplicate "
-             "name, 4 key-order swaps) through both entry points; loader "
+             "name, 4 key-order swaps) through both entry points, fresh, "
+             "under a key already in use, and applied in place to a module "
+             "object that was accepted (and deregistered) before; loader "
              "inputs (valid, missing, syntax error, failing inner import, "
              "raising module, incomplete model) x position of the directory "
              "on sys.path; same-stem files; file copies of all shipped "
@@ -310,7 +312,9 @@ CHECKS = {
              "values); success flag, parameter recovery to optimiser "
              "precision, curve recovery on the whole fitted segment (also for "
              "fits on an absolute / contact-point-relative sub-interval), "
-             "noise-proportional error bounds.",
+             "noise-proportional error bounds; per model, a sequence of "
+             "fits on different curves in one process (the first with a "
+             "user-fixed baseline).",
         design_ref="DESIGN.md §2 C01",
         note="The convergence basin and the noise constants are stated by "
              "the check (regression bounds); the layered model's sample "
@@ -430,7 +434,7 @@ def build():
              "kind_free_text": "closure (fixpoint) search of small dictionary-like stores against a reference model"},
         ],
         "checks": checks,
-        "notes": "All checks run the real nanite code from /repo/src (no build step). Exit 0 = held, 1 = VIOLATION (every reported counterexample was re-executed and reproduced in a fresh interpreter), 2 = harness error (no verdict). known_findings.json lists genuine defects (fixed ones with their fix: commit). seeded/ holds 204 confirmed property-breaking changes with the checks' results (seeded/MATRIX.md); tools/seedtest.py re-runs them.",
+        "notes": "All checks run the real nanite code from /repo/src (no build step). Exit 0 = held, 1 = VIOLATION (every reported counterexample was re-executed and reproduced in a fresh interpreter), 2 = harness error (no verdict). known_findings.json lists genuine defects (fixed ones with their fix: commit). seeded/ holds 226 confirmed property-breaking changes with the checks' results (seeded/MATRIX.md); tools/seedtest.py re-runs them.",
         "not_applicable": [{"property_id": p, "reason": NA_REASON}
                            for p in ALL if p not in CHECKS],
     }
